@@ -30,6 +30,10 @@ const (
 	maxRet   = 1024
 )
 
+// MaxScript is the largest encoded script the Runner can take: the script is copied to memIN and must
+// end below the output buffer at memOUT.
+const MaxScript = memOUT - memIN - 64
+
 type asm struct {
 	code   []byte
 	labels map[string]int
@@ -251,6 +255,9 @@ func Project(s Script, outs []Outcome, frameKept bool) Script {
 		}
 		nc := c
 		nc.Catch = true
+		// the kept call ran to completion under its gas cap; without the dropped frames around it the same call
+		// can cost more (addresses and slots they warmed are cold again), so the cap is not carried over
+		nc.Gas = 0
 		if c.Sub != nil {
 			sub := Project(*c.Sub, outs[i].Sub, true)
 			nc.Sub = &sub
